@@ -303,33 +303,34 @@ Definition set_cmts (to : value) (cm : list cgroup) : value :=
 (* changeFinder.unchanged: to.Comments = from.Comments *)
 Definition unchanged (from to : value) : value := set_cmts to (n_cmts (info from)).
 
-(* walkStruct: where each field starts *)
-Fixpoint starts_of (cs : list value) (last_end : Z) : list Z :=
+(* changeFinder.endOf: where a node that is about to be walked ends - not after the node it is a part
+   of, nor after the region it is charged with (when that region is well-formed) *)
+Definition end_of (nend : Z) (r : region) (n : value) : Z :=
+  let e1 := if valid nend && (nend <? vend n) then nend else vend n in
+  if (fst r <? snd r) && (snd r <? e1) then snd r else e1.
+
+(* walkStruct: where each field starts; [eo] is changeFinder.endOf for the struct being walked *)
+Fixpoint starts_of (eo : value -> Z) (cs : list value) (last_end : Z) : list Z :=
   match cs with
   | [] => []
   | c :: cs' =>
       if is_node c then
         let aft := snd (comments_for c) in
-        let le := match aft with [] => vend c | _ => Z.max (vend c) (snd (last aft (nopos, nopos))) end in
-        vpos c :: starts_of cs' le
+        let le := match aft with [] => eo c | _ => Z.max (eo c) (snd (last aft (nopos, nopos))) end in
+        vpos c :: starts_of eo cs' le
       else match c with
-           | VPos p => (if valid p then p else nopos) :: starts_of cs' last_end
-           | _ => last_end :: starts_of cs' last_end
+           | VPos p => (if valid p then p else nopos) :: starts_of eo cs' last_end
+           | _ => last_end :: starts_of eo cs' last_end
            end
   end.
 
-(* walkStruct: where each field ends (computed from the last field backwards).  [nend]: the end
-   of the innermost node being walked (NoPos at the top): a node that is a part of it is not
-   charged with code beyond it - the positions of nodes added to the tree need not be those of
-   their text *)
-Definition node_field_end (nend : Z) (c : value) : Z :=
-  if valid nend && (nend <? vend c) then nend else vend c.
-
-Fixpoint ends_of (nend : Z) (cs : list value) (starts : list Z) (fend : Z) : list Z * Z :=     (* (ends, nextPos before the first) *)
+(* walkStruct: where each field ends (computed from the last field backwards): a node field ends
+   where endOf says - the positions of nodes added to the tree need not be those of their text *)
+Fixpoint ends_of (eo : value -> Z) (cs : list value) (starts : list Z) (fend : Z) : list Z * Z :=     (* (ends, nextPos before the first) *)
   match cs, starts with
   | c :: cs', s :: ss' =>
-      let (es, nextpos) := ends_of nend cs' ss' fend in
-      ((if is_node c then node_field_end nend c else nextpos) :: es, s)
+      let (es, nextpos) := ends_of eo cs' ss' fend in
+      ((if is_node c then eo c else nextpos) :: es, s)
   | _, _ => ([], fend)
   end.
 
@@ -337,11 +338,11 @@ Fixpoint ends_of (nend : Z) (cs : list value) (starts : list Z) (fend : Z) : lis
 Definition elem_region (r : region) (prev : option value) (n : value) (next : option value) : region :=
   let p0 := match prev with
             | None => fst r
-            | Some pv => match snd (comments_for pv) with [] => vend pv | _ => vpos n end
+            | Some pv => match snd (comments_for pv) with [] => Z.min (vend pv) (vpos n) | _ => vpos n end
             end in
   let e0 := match next with
             | None => snd r
-            | Some nx => match fst (comments_for nx) with [] => vpos nx | _ => vend n end
+            | Some nx => match fst (comments_for nx) with [] => vpos nx | b :: _ => Z.min (vend n) (fst b) end
             end in
   let (bef, aft) := comments_for n in
   let p1 := match bef with [] => p0 | _ => Z.max p0 (snd (last bef (nopos, nopos))) end in
@@ -379,15 +380,15 @@ Section Walk.
           | VNil _, _ => Some {| w_equal := false; w_to := to; w_log := [] |}        (* "if from.IsNil() { return }" *)
           | VRef _ _ _, VNil _ => changed
           | VRef _ _ a, VRef t i b =>
-              match walk k (if n_isnode (info from) then vend from else nend) r a b with
+              match walk k (if n_isnode (info from) then end_of nend r from else nend) r a b with
               | None => None
               | Some w =>
                   let to' := VRef t i (w_to w) in
                   Some {| w_equal := w_equal w; w_to := if w_equal w then unchanged from to' else to'; w_log := w_log w |}
               end
           | VStruct _ xs, VStruct t ys =>
-              let ss := starts_of xs (fst r) in
-              let es := fst (ends_of nend xs ss (snd r)) in
+              let ss := starts_of (end_of nend r) xs (fst r) in
+              let es := fst (ends_of (end_of nend r) xs ss (snd r)) in
               match (fix go (xs ys : list value) (ss es : list Z) : option (bool * list value * list region) :=
                        match xs, ys, ss, es with
                        | x :: xs', y :: ys', s :: ss', e :: es' =>
@@ -551,10 +552,24 @@ Fixpoint xedits (es : list edit) : list edit :=
   end.
 
 (* [es]: the edits of the elements of xs (xedits of the script) *)
-Definition list_okb (r : region) (xs : list value) (es : list edit) : bool :=
+Definition list_okb (nend : Z) (r : region) (xs : list value) (es : list edit) : bool :=
   forallb node_okb xs && orderedb xs
   && forallb (fun xe => is_identity (snd xe) || bounded_rootb (vpos (fst xe)) (vend (fst xe)) (fst xe)) (combine xs es)
-  && (nopos <=? fst r) && match xs with x0 :: _ => fst r <=? vpos x0 | [] => true end.
+  && (nopos <=? fst r) && match xs with x0 :: _ => fst r <=? vpos x0 | [] => true end
+  && ((nend =? nopos) || forallb (fun x => vpos x <=? nend) xs)
+  && forallb (fun xer => let '(x, e, rg) := xer in
+                         is_identity e || (snd rg =? nopos) || (Z.min (fst rg) (vpos x) <=? snd rg))
+             (combine (combine xs es) (elem_regions r None xs)).
+
+(* the conjuncts of [list_okb] one by one (diagnostics of a check run: which side condition failed) *)
+Definition list_ok_parts (nend : Z) (r : region) (xs : list value) (es : list edit) : list bool :=
+  [ forallb node_okb xs; orderedb xs;
+    forallb (fun xe => is_identity (snd xe) || bounded_rootb (vpos (fst xe)) (vend (fst xe)) (fst xe)) (combine xs es);
+    (nopos <=? fst r); match xs with x0 :: _ => fst r <=? vpos x0 | [] => true end;
+    ((nend =? nopos) || forallb (fun x => vpos x <=? nend) xs);
+    forallb (fun xer => let '(x, e, rg) := xer in
+                        is_identity e || (snd rg =? nopos) || (Z.min (fst rg) (vpos x) <=? snd rg))
+            (combine (combine xs es) (elem_regions r None xs)) ].
 
 Definition own_comments (x : value) : list (Z * Z) := concat (n_cmts (info x)).
 
@@ -570,12 +585,15 @@ Fixpoint first_node_slice (cs : list value) (ss es : list Z) : option (region * 
   | _, _, _ => None
   end.
 
+Definition file_nend (from : value) : Z := end_of nopos (vpos from, vend from) from.
+
 Definition file_decls (from : value) : option (region * list value) :=
   match from with
   | VRef _ _ (VStruct _ cs) =>
       let r := (vpos from, vend from) in
-      let ss := starts_of cs (fst r) in
-      first_node_slice cs ss (fst (ends_of (vend from) cs ss (snd r)))
+      let eo := end_of (file_nend from) r in
+      let ss := starts_of eo cs (fst r) in
+      first_node_slice cs ss (fst (ends_of eo cs ss (snd r)))
   | _ => None
   end.
 
@@ -595,11 +613,17 @@ Definition decl_report (from to : value) (calls : list region) : option (bool * 
   | None => None
   | Some (r, xs) =>
       let es := xedits (the_script xs (file_decls_to to)) in
-      Some (list_okb r xs es,
+      Some (list_okb (file_nend from) r xs es,
             flat_map (fun jx => let '(j, x, e) := jx in
                         if is_identity e then
                           let cs := filter (fun c => fst c <? snd c) (own_comments x) in
                           [(j, forallb (attachedb xs j x) cs, filter (fun c => negb (forallb (clearb c) calls)) cs)]
                         else [])
                      (combine (combine (seq 0 (length xs)) xs) es))
+  end.
+
+Definition decl_conditions (from to : value) : list bool :=
+  match file_decls from with
+  | None => []
+  | Some (r, xs) => list_ok_parts (file_nend from) r xs (xedits (the_script xs (file_decls_to to)))
   end.
